@@ -14,16 +14,16 @@ Record progressive {P} (F : framer P) (held : fst_ F -> nat) : Prop := {
 }.
 
 Lemma skipn_len_lt {X} n (l : list X) : 1 <= n -> l <> [] -> length (skipn n l) < length l.
-Proof. intros Hn Hl. rewrite skipn_length. destruct l; [congruence|simpl; lia]. Qed.
+Proof. intros Hn Hl. rewrite skipn_length. destruct l; [congruence|]. cbn [length]. lia. Qed.
 
 Lemma skipn_len_le {X} n (l : list X) : length (skipn n l) <= length l.
 Proof. rewrite skipn_length; lia. Qed.
 
 Lemma nonempty_len {X} (l : list X) : l <> [] -> 1 <= length l.
-Proof. destruct l; [congruence|simpl; lia]. Qed.
+Proof. destruct l; [congruence|cbn [length]; lia]. Qed.
 
 Lemma len_nonempty {X} (l : list X) : 1 <= length l -> l <> [].
-Proof. destruct l; simpl; [lia|congruence]. Qed.
+Proof. destruct l; cbn [length]; [lia|congruence]. Qed.
 
 (* ---- read_until ---- *)
 Section RU.
@@ -114,41 +114,324 @@ Section JSON.
   Definition j_held (s : jstate) : nat :=
     match s with JInit => 0 | JEnc doc _ => length doc | JPlain doc => length doc end.
 
-  Definition j_ok {P} (doc : bytes) (r : fres jstate P) : Prop :=
+  Definition j_ok {P} (n : nat) (r : fres jstate P) : Prop :=
     match r with
-    | Need s' => j_held s' <= length doc
-    | Done _ rest | Fail _ rest => length rest < length doc
+    | Need s' => j_held s' <= n
+    | Done _ rest | Fail _ rest => length rest < n
     | Crash => False
     end.
 
-  Lemma jsplit_progress doc consumed : doc <> [] -> 1 <= consumed \/ limit < consumed = False ->
-    j_ok doc (jsplit limit doc consumed).
+  Lemma j_ok_mono {P} n m (r : fres jstate P) : n <= m -> j_ok n r -> j_ok m r.
+  Proof. destruct r; simpl; intros; lia || assumption. Qed.
+
+  Lemma jsplit_progress doc consumed : doc <> [] -> j_ok (length doc) (jsplit limit doc consumed).
   Proof.
-    intros Hd Hc. unfold jsplit, j_ok.
+    intros Hd. pose proof (nonempty_len _ Hd) as Hl. unfold jsplit, j_ok.
     destruct (Nat.ltb limit consumed) eqn:El.
-    - apply Nat.ltb_lt in El. pose proof (overrun_remainder_len [] doc consumed). apply nonempty_len in Hd. lia.
+    - apply Nat.ltb_lt in El. pose proof (overrun_remainder_len [] doc consumed). lia.
     - destruct (Nat.eqb (consumed + ws_run (skipn consumed doc)) (length doc)) eqn:Ee.
-      + simpl. apply nonempty_len in Hd; lia.
+      + simpl; lia.
       + destruct (firstn (consumed + ws_run (skipn consumed doc)) doc) eqn:Ef.
-        * simpl. apply nonempty_len in Hd; lia.
+        * simpl; lia.
         * apply skipn_len_lt; [|assumption].
           destruct (consumed + ws_run (skipn consumed doc)); [simpl in Ef; congruence|lia].
   Qed.
 
-  Lemma find_nonvalue_lt s idx : find_nonvalue s = Some idx -> idx < length s.
+  Lemma jplain_progress doc : j_ok (length doc) (jplain limit doc).
   Proof.
-    revert idx; induction s as [|b s IH]; simpl; intros idx H; [congruence|].
-    destruct (is_value_byte b).
-    - destruct (find_nonvalue s) as [i|]; simpl in H; [|congruence]. inversion H; subst. specialize (IH i eq_refl). lia.
-    - inversion H; lia.
+    unfold jplain. destruct (find_nonvalue doc) as [idx|] eqn:Ef.
+    - apply jsplit_progress. destruct doc; [simpl in Ef; congruence|congruence].
+    - destruct (Nat.ltb limit (length doc)) eqn:El; [|simpl; lia].
+      apply Nat.ltb_lt in El. unfold j_ok. pose proof (overrun_remainder_len [] doc (length doc)). lia.
   Qed.
 
-  Lemma jplain_progress doc : doc <> [] -> j_ok doc (jplain limit doc).
+  Lemma jscan_nil_or pre todo c : todo = [] -> jscan pre todo c = JSMore c.
+  Proof. intros ->; reflexivity. Qed.
+
+  Lemma jenc_progress old chunk c : j_ok (length old + length chunk) (jenc limit old chunk c).
   Proof.
-    intros Hd. unfold jplain. destruct (find_nonvalue doc) as [idx|] eqn:Ef.
-    - apply jsplit_progress; [assumption|]. left.
-      (* idx may be 0: then nothing is consumed before the whitespace skip, handled inside jsplit *)
-      destruct idx; [|lia].
-      (* consumed = 0 *) exfalso. revert Ef. clear. intros _. exact I.
-  Abort.
+    unfold jenc. rewrite <- app_length.
+    destruct (jscan (rev old) chunk c) as [c'|consumed|off] eqn:Es.
+    - destruct (Nat.ltb limit (length (old ++ chunk))) eqn:El; [|simpl; lia].
+      apply Nat.ltb_lt in El. unfold j_ok. pose proof (overrun_remainder_len [] (old ++ chunk) (length (old ++ chunk))). lia.
+    - apply jsplit_progress. destruct chunk; [simpl in Es; congruence|]. destruct old; simpl; congruence.
+    - eapply j_ok_mono; [|apply jplain_progress]. apply skipn_len_le.
+  Qed.
+
+  Lemma jraw_feed_progress s chunk : j_ok (j_held s + length chunk) (jraw_feed limit s chunk).
+  Proof.
+    destruct s; simpl.
+    - apply (jenc_progress [] chunk jcount0).
+    - apply jenc_progress.
+    - rewrite <- app_length. apply jplain_progress.
+  Qed.
+
+  Context {P : Type}.
+  Variable dec : decoder P.
+
+  Lemma json_feed_progress s chunk : j_ok (j_held s + length chunk) (json_feed limit dec s chunk).
+  Proof.
+    unfold json_feed. pose proof (jraw_feed_progress s chunk) as H.
+    destruct (jraw_feed limit s chunk); simpl in *; try assumption.
+    destruct (dec p); simpl; assumption.
+  Qed.
+
+  Lemma json_progressive : progressive (json_framer limit dec) j_held.
+  Proof.
+    split; simpl.
+    - reflexivity.
+    - intros s c s' H. pose proof (json_feed_progress s c) as Hp. rewrite H in Hp. exact Hp.
+    - intros s c p rest _ H. pose proof (json_feed_progress s c) as Hp. rewrite H in Hp. exact Hp.
+    - intros s c e rest _ H. pose proof (json_feed_progress s c) as Hp. rewrite H in Hp. exact Hp.
+  Qed.
 End JSON.
+
+(* ---- file based: needs the loader to have read something before it returns or fails ---- *)
+Section FB.
+  Context {P : Type}.
+  Variables (limit : nat) (load : bytes -> lres P) (expected : Z -> bool).
+  Hypothesis load_eof_pos : forall content pos, load content = LEof pos -> pos <= length content.
+  Hypothesis load_done_pos : forall content p pos, load content = LDone p pos -> 1 <= pos.
+  Hypothesis load_raise_pos : forall content k pos, load content = LRaise k pos -> 1 <= pos.
+
+  (* a loader may leave the file position anywhere; BytesIO.write then extends the buffer up to position + len *)
+  Definition fb_held (s : fb_state) : nat :=
+    match s with None => 0 | Some (content, pos) => Nat.max (length content) pos end.
+
+  Lemma fb_round_progress content : content <> [] ->
+    match fb_round limit load expected content with
+    | Need s' => fb_held s' = length content
+    | Done _ rest | Fail _ rest => length rest < length content
+    | Crash => True
+    end.
+  Proof.
+    intros Hc. pose proof (nonempty_len _ Hc). unfold fb_round.
+    destruct (Nat.ltb limit (length content)) eqn:El.
+    - pose proof (overrun_remainder_len [] content (length content)). lia.
+    - destruct (load content) as [pos|p pos|k pos] eqn:E.
+      + simpl. specialize (load_eof_pos _ _ E). lia.
+      + apply skipn_len_lt; eauto.
+      + destruct (expected k); [|exact I]. apply skipn_len_lt; eauto.
+  Qed.
+
+  Lemma bio_write_len content pos data :
+    length (bio_write content pos data) <= Nat.max (length content) pos + length data /\
+    length data <= length (bio_write content pos data).
+  Proof. unfold bio_write. rewrite !app_length, firstn_length, repeat_length, skipn_length. lia. Qed.
+
+  Lemma fb_feed_progress s (c : bytes) : c <> [] ->
+    match fb_feed limit load expected s c with
+    | Need s' => fb_held s' <= fb_held s + length c
+    | Done _ rest | Fail _ rest => length rest < fb_held s + length c
+    | Crash => True
+    end.
+  Proof.
+    intros Hc. pose proof (nonempty_len _ Hc). unfold fb_feed. destruct s as [[content pos]|]; cbn [fb_held].
+    - pose proof (bio_write_len content pos c) as [H1 H2].
+      assert (Hne : bio_write content pos c <> []) by (apply len_nonempty; lia).
+      pose proof (fb_round_progress _ Hne) as Hp.
+      destruct (fb_round limit load expected (bio_write content pos c)); try lia; exact I.
+    - pose proof (fb_round_progress _ Hc) as Hp.
+      destruct (fb_round limit load expected c); try lia; exact I.
+  Qed.
+
+  Lemma fb_progressive : progressive (fb_framer limit load expected) fb_held.
+  Proof.
+    split; simpl.
+    - reflexivity.
+    - intros s c s' H. destruct c as [|b c].
+      + (* an empty chunk is never sent by the consumers; the bound still holds *)
+        unfold fb_feed in H. destruct s as [[content pos]|]; cbn [fb_held].
+        * unfold fb_round in H. destruct (Nat.ltb _ _); [congruence|].
+          destruct (load _) as [p0|p0 q|k q] eqn:E; try congruence.
+          -- inversion H; subst. cbn [fb_held]. specialize (load_eof_pos _ _ E).
+             pose proof (bio_write_len content pos []). simpl in *. lia.
+          -- destruct (expected k); congruence.
+        * unfold fb_round in H. destruct (Nat.ltb _ _); [congruence|].
+          destruct (load _) as [p0|p0 q|k q] eqn:E; try congruence.
+          -- inversion H; subst. cbn [fb_held]. specialize (load_eof_pos _ _ E). simpl in *. lia.
+          -- destruct (expected k); congruence.
+      + pose proof (fb_feed_progress s (b :: c) ltac:(congruence)) as Hp. rewrite H in Hp. exact Hp.
+    - intros s c p rest Hc H. pose proof (fb_feed_progress s c Hc) as Hp. rewrite H in Hp. exact Hp.
+    - intros s c e rest Hc H. pose proof (fb_feed_progress s c Hc) as Hp. rewrite H in Hp. exact Hp.
+  Qed.
+End FB.
+
+(* ---- compressors: the decompressor reaches eof inside the chunk that completes the stream ---- *)
+Section CZ.
+  Context {P : Type}.
+  Variables (D : Type) (dnew : D) (ddecompress : D -> bytes -> (D * bytes) + Z) (deof : D -> bool) (dunused : D -> bytes).
+  Variables (expected : Z -> bool) (inner : bytes -> ores P) (inner_declared : Z -> bool).
+  Hypothesis unused_in_chunk : forall d c d' out, ddecompress d c = inl (d', out) -> deof d' = true -> length (dunused d') < length c.
+
+  Lemma cz_feed_progress st c : c <> [] ->
+    match cz_feed D ddecompress deof dunused expected inner inner_declared st c with
+    | Need _ | Crash => True
+    | Done _ rest | Fail _ rest => length rest < length c
+    end.
+  Proof.
+    intros Hc. pose proof (nonempty_len _ Hc). unfold cz_feed. destruct st as [results d].
+    destruct (ddecompress d c) as [[d' out]|k] eqn:E.
+    - destruct (deof d') eqn:Ee; [|exact I].
+      unfold cz_finish. specialize (unused_in_chunk _ _ _ _ E Ee).
+      destruct (inner _); [assumption|]. destruct (inner_declared k); [assumption|exact I].
+    - destruct (expected k); simpl; [lia|exact I].
+  Qed.
+
+  Lemma cz_progressive :
+    progressive (cz_framer D dnew ddecompress deof dunused expected inner inner_declared) (fun _ => 0).
+  Proof.
+    split; simpl.
+    - reflexivity.
+    - intros; lia.
+    - intros s c p rest Hc H. pose proof (cz_feed_progress s c Hc) as Hp. rewrite H in Hp. lia.
+    - intros s c e rest Hc H. pose proof (cz_feed_progress s c Hc) as Hp. rewrite H in Hp. lia.
+  Qed.
+End CZ.
+
+(* ---- wrappers keep the property ---- *)
+Lemma wrap_progressive {P} (F : framer P) held : progressive F held -> progressive (wrap_generic F) held.
+Proof.
+  intros [Hi Hn Hd Hf]. split; simpl.
+  - exact Hi.
+  - intros s c s' H. destruct (ffeed F s c) eqn:E; inversion H; subst. eapply Hn; eauto.
+  - intros s c p rest Hc H. destruct (ffeed F s c) eqn:E; inversion H; subst. eapply Hd; eauto.
+  - intros s c e rest Hc H. destruct (ffeed F s c) eqn:E; inversion H; subst. eapply Hf; eauto.
+Qed.
+
+Lemma lift_progressive {P} (F : framer (epkt P)) held : progressive F held -> progressive (lift_framer F) held.
+Proof.
+  intros [Hi Hn Hd Hf]. split; simpl.
+  - exact Hi.
+  - intros s c s' H. destruct (ffeed F s c) as [s0|[p|k] r|e r|] eqn:E; simpl in H; inversion H; subst. eapply Hn; eauto.
+  - intros s c p rest Hc H. destruct (ffeed F s c) as [s0|[p0|k] r|e r|] eqn:E; simpl in H; inversion H; subst. eapply Hd; eauto.
+  - intros s c e rest Hc H. destruct (ffeed F s c) as [s0|[p0|k] r|e0 r|] eqn:E; simpl in H; inversion H; subst. eapply Hf; eauto.
+Qed.
+
+(* ---- the copying consumer over a progressive framer ---- *)
+Section Loop.
+  Context {P : Type}.
+  Variable F : framer P.
+  Variable held : fst_ F -> nat.
+  Hypothesis HF : progressive F held.
+
+  (* bytes still owed to the parser: the consumer's leftover plus what the suspended generator keeps *)
+  Definition phi (c : cstate F) : nat :=
+    length (cbuf c) + match ccons c with Some s => held s | None => 0 end.
+
+  Definition is_stop (r : nres P) : bool := match r with RStop => true | _ => false end.
+
+  Lemma cfeed_phi c (data : bytes) : data <> [] ->
+    let '(c', r) := cfeed F c data in
+    if is_stop r then phi c' <= (match ccons c with Some s => held s | None => 0 end) + length data
+    else phi c' < (match ccons c with Some s => held s | None => 0 end) + length data.
+  Proof.
+    intros Hd. pose proof (nonempty_len _ Hd). destruct HF as [Hi Hn Hdn Hf].
+    unfold cfeed, phi.
+    set (st := match ccons c with Some s => s | None => finit F end).
+    assert (Hst : held st = match ccons c with Some s => held s | None => 0 end)
+      by (unfold st; destruct (ccons c); [reflexivity|exact Hi]).
+    destruct (ffeed F st data) eqn:E; simpl.
+    - specialize (Hn _ _ _ E). lia.
+    - specialize (Hdn _ _ _ _ Hd E). lia.
+    - specialize (Hf _ _ _ _ Hd E). lia.
+    - lia.
+  Qed.
+
+  Lemma cnext_none_phi c :
+    let '(c', r) := match cbuf c with [] => (c, RStop) | b => cfeed F c b end in
+    if is_stop r then phi c' <= phi c else phi c' < phi c.
+  Proof.
+    destruct (cbuf c) as [|b0 l0] eqn:Eb; [simpl; lia|].
+    pose proof (cfeed_phi c (b0 :: l0) ltac:(congruence)) as H.
+    assert (Hphi : phi c = S (length l0) + match ccons c with Some s => held s | None => 0 end)
+      by (unfold phi; rewrite Eb; reflexivity).
+    destruct (cfeed F c (b0 :: l0)) as [c' r]. rewrite Hphi. cbn [length] in *.
+    destruct (is_stop r); lia.
+  Qed.
+
+  Lemma cnext_phi c (chunk : option bytes) :
+    let '(c', r) := cnext F c chunk in
+    let n := match chunk with Some ch => length ch | None => 0 end in
+    if is_stop r then phi c' <= phi c + n else phi c' < phi c + n.
+  Proof.
+    unfold cnext. destruct chunk as [[|b ch]|].
+    - pose proof (cnext_none_phi c) as H. destruct (match cbuf c with [] => (c, RStop) | _ => _ end) as [c' r].
+      cbn [length]. destruct (is_stop r); lia.
+    - pose proof (cfeed_phi c (cbuf c ++ b :: ch) ltac:(destruct (cbuf c); simpl; congruence)) as H.
+      assert (Hphi : phi c = length (cbuf c) + match ccons c with Some s => held s | None => 0 end) by reflexivity.
+      destruct (cfeed F c (cbuf c ++ b :: ch)) as [c' r]. rewrite Hphi. rewrite app_length in H.
+      cbn [length] in *. destruct (is_stop r); lia.
+    - pose proof (cnext_none_phi c) as H. destruct (match cbuf c with [] => (c, RStop) | _ => _ end) as [c' r].
+      destruct (is_stop r); lia.
+  Qed.
+
+  Lemma cnext_stop_iff c chunk c' r : cnext F c chunk = (c', r) -> is_stop r = true -> r = RStop.
+  Proof. destruct r; simpl; congruence. Qed.
+
+  (* every event of the drain loop pays one byte *)
+  Lemma cdrain_phi fuel : forall c, let '(c', evs) := cdrain F fuel c in length evs + phi c' <= phi c.
+  Proof.
+    induction fuel as [|f IH]; intros c; [simpl; lia|].
+    cbn [cdrain]. pose proof (cnext_phi c None) as H. destruct (cnext F c None) as [c1 r].
+    destruct r as [p|e| |]; cbn [is_stop] in H.
+    1,2,4: specialize (IH c1); destruct (cdrain F f c1) as [c2 rs]; cbn [length]; lia.
+    cbn [length]; lia.
+  Qed.
+
+  Lemma cnext_none_stop_idem c c1 : cnext F c None = (c1, RStop) -> snd (cnext F c1 None) = RStop.
+  Proof.
+    unfold cnext. destruct (cbuf c) as [|b0 l0] eqn:Eb.
+    - intros E; inversion E; subst. rewrite Eb. reflexivity.
+    - unfold cfeed. destruct (ffeed F _ _) eqn:Ef; intros E; inversion E; subst. reflexivity.
+  Qed.
+
+  (* ... and with enough fuel the loop stops because next(None) raised StopIteration, not because fuel ran out *)
+  Lemma cdrain_stops fuel : forall c, phi c < fuel ->
+    let '(c', _) := cdrain F fuel c in snd (cnext F c' None) = RStop.
+  Proof.
+    induction fuel as [|f IH]; intros c Hf; [lia|]. cbn [cdrain].
+    destruct (cnext F c None) as [c1 r] eqn:E.
+    pose proof (cnext_phi c None) as H. rewrite E in H.
+    destruct r as [p|e| |]; cbn [is_stop] in H.
+    1,2,4: assert (Hlt : phi c1 < f) by lia; specialize (IH c1 Hlt); destruct (cdrain F f c1) as [c2 rs]; exact IH.
+    eapply cnext_none_stop_idem; eassumption.
+  Qed.
+
+  Lemma cstep_phi fuel c (chunk : bytes) :
+    let '(c', evs) := cstep F fuel c chunk in length evs + phi c' <= phi c + length chunk.
+  Proof.
+    unfold cstep. pose proof (cnext_phi c (Some chunk)) as H. destruct (cnext F c (Some chunk)) as [c1 r].
+    destruct r as [p|e| |]; cbn [is_stop] in H.
+    1,2,4: pose proof (cdrain_phi fuel c1) as Hd; destruct (cdrain F fuel c1) as [c2 rs]; cbn [length]; lia.
+    cbn [length]; lia.
+  Qed.
+
+  Definition total_len (chunks : list bytes) : nat := fold_right (fun ch n => length ch + n) 0 chunks.
+
+  Lemma cdeliver_phi fuel chunks : forall c,
+    let '(c', evs) := cdeliver F fuel c chunks in length evs + phi c' <= phi c + total_len chunks.
+  Proof.
+    induction chunks as [|ch chs IH]; intros c; [simpl; lia|].
+    cbn [cdeliver total_len fold_right].
+    pose proof (cstep_phi fuel c ch) as H1. destruct (cstep F fuel c ch) as [c1 rs].
+    specialize (IH c1). destruct (cdeliver F fuel c1 chs) as [c2 rs'].
+    rewrite app_length. fold (total_len chs). lia.
+  Qed.
+
+  (* after every chunk the endpoint's drain loop has terminated on its own, provided the fuel covers the backlog *)
+  Lemma cstep_stops fuel c (chunk : bytes) : phi c + length chunk <= fuel ->
+    let '(c', _) := cstep F fuel c chunk in snd (cnext F c' None) = RStop.
+  Proof.
+    intros Hf. unfold cstep. destruct (cnext F c (Some chunk)) as [c1 r] eqn:E.
+    pose proof (cnext_phi c (Some chunk)) as H. rewrite E in H.
+    destruct r as [p|e| |]; cbn [is_stop] in H.
+    1,2,4: pose proof (cdrain_stops fuel c1 ltac:(lia)) as Hd; destruct (cdrain F fuel c1) as [c2 rs]; exact Hd.
+    (* next(chunk) itself stopped: the generator is suspended and the leftover is empty *)
+    unfold cnext in E. destruct chunk as [|b ch].
+    - destruct (cbuf c) as [|b0 l0] eqn:Eb.
+      + inversion E; subst. unfold cnext. rewrite Eb. reflexivity.
+      + unfold cfeed in E. destruct (ffeed F _ _) eqn:Ef; inversion E; subst. reflexivity.
+    - unfold cfeed in E. destruct (ffeed F _ _) eqn:Ef; inversion E; subst. reflexivity.
+  Qed.
+End Loop.
